@@ -280,6 +280,8 @@ def run(chk):
     chk.ob("C13-R5", "series._temporal.Inlay._cumulate_backward[recursion]", ok and len(sets) == 1,
            "x[t+shift] = cum_func(x[t], change[t])", m.loc(bw))
     chk.guard(rule_r6, chk)
+    from .. import args as _args
+    chk.guard(_args.apply, chk, "C13-R90", {'dates', 'series'}, 1)
     chk.assumptions = [
         "positive real domain for log/roc formulas (the domain the property quantifies over)",
         "documented formulas: diff=x-y, diff_log=log x-log y, roc=x/y, pct=100(x/y-1), annualised variants with exponent/factor a",
